@@ -1,6 +1,7 @@
 """C12 — source positions point at the text they claim.  Theorems: coq/Props/C12.v (slice of a line at the
 position of a piece is that piece; the verbatim clause there; make_inline keeps widths; Spx::consume on
-verbatim pieces and its refutation otherwise).  Tie: translator item `srcpos`.  Search on the
+verbatim pieces and its refutation otherwise) and coq/Props/BlocksSlice.v (block phase model: the start position of
+every delimited block is the byte of its delimiter; refuted behind a NUL and for tables).  Tie: translator item `srcpos`.  Search on the
 IMPLEMENTATION: the extracted slice clauses of Spec/SourcePos.v (verbatim Text = literal unless escape,
 entity, NUL or smart punctuation is involved; code spans, emphasis, strong, strikethrough, links, images,
 autolinks, headings, fenced code, block quotes, thematic breaks, table cells start and end on their own
@@ -14,6 +15,9 @@ def parser_models(tier):
     moves the code away from the models and is reported even when the search meets no failing slice"""
     def f(c):
         from checks import layerc
+        # Props/BlocksSlice.v: the START of every delimited block points at its delimiter (theorems about the block model
+        # that is tied just below); obligations accumulate with those of Props/C12.v
+        c.phase_proofs("BlocksSlice")
         layerc.blocks(c, tier, 0.15 if tier == "quick" else 0.1, proofs=False)
         layerc.inlines(c, tier, 0.2 if tier == "quick" else 0.1, proofs=False)
     return f
@@ -23,6 +27,7 @@ def main(tier):
     c = srcposfam.run("C12", ("V",), tier, after_proofs=parser_models(tier))
     c.cov["partial_clauses"] = [
         "the global statement (forall inputs: every slice clause holds) is not proved; it is evaluated with the extracted predicate and FAILS in the known classes listed in known_findings.json (C12-a ...)",
+        "block phase (Props/BlocksSlice.v), proved for every input, node and option set with front matter and the description list extension off: the start position of a ThematicBreak, BlockQuote, List, Item, HtmlBlock, FootnoteDefinition, Alert, MultilineBlockQuote, ATX Heading and fenced CodeBlock is a byte of the line the parser works on (NUL replaced by U+FFFD) and that byte is the construct's delimiter (* _ - / > / bullet character of the payload or a digit / < / [ / > / > / # / fence character of the payload); Paragraph and setext Heading (table extension off): a byte at the start position is not a blank (that it lies inside the line is not claimed). BlocksSlice_start: the same on the ORIGINAL input when it has no NUL; tabs (partially consumed ones too), a byte-order mark and lazy continuation are no exceptions. Refuted with NUL (BlocksSlice_nul_refuted, class nul_shift) and for Table / TableRow (BlocksSlice_table_refuted, class table_row_indent); the END of blocks, description lists, front matter and Paragraph under the table extension are not proved (BlocksSlice_full_statement)",
         "the verbatim clause is not demanded when the smart option is on, nor for a text whose slice contains a backslash, an ampersand or NUL (the property text excludes escape, entity, smart punctuation, NUL)"]
     c.assumptions = ["Model/Spx.v is a hand transcription; the Rust bodies are compared with the transcribed text on every run (translator item srcpos)",
                      "positions are judged against the ORIGINAL input bytes, lines split at LF, CR LF, CR (CommonMark 2.1)",
